@@ -172,6 +172,14 @@ def main():
             ft = s.feature(c, h)
             if ft is not None:
                 features.add((s.name, ft))
+        if hasattr(s, "post"):
+            for sig, desc, c in s.post(cases, ho):
+                nf += 1
+                k = match_known(known, prop, sig)
+                if k:
+                    known_hits[k["id"]] = k
+                elif not any(v[0] == sig for v in violations):
+                    violations.append((sig, desc, {"suite": s.name, "cfg": s.cfg, "line": c.line, "what": desc}))
         if cases:
             for j in (0, len(cases) // 2, len(cases) - 1):
                 samples.append({"suite": s.name, "line": cases[j].line[:300], "implementation": (ho[j] or "")[:300]})
